@@ -25,6 +25,9 @@ def main(tier, replay=None):
                                     lambda n: list(range(1, n)), 40 if q else 150, 32 if q else 320, restarts=True, moves_mix=True)
     specs += S.standard_random_specs(tier, sc.chk.seed + 10, [5, 6], lambda n: [n - 2, n - 1], 80 if q else 200, 32 if q else 160)
     sc.random_runs(specs)
+    # the unmodified scheduler() with a real process pool and the real TurtleMD engine (8 ensembles, wire-fencing weights that are
+    # not 0/1, several workers so that some paths are busy when the fractions are recorded), killed and continued
+    sc.real_pool_runs(S.turtle_pool_specs(sc.chk.seed + 12, 6 if q else 40), label="real-pool")
     sc.chk.assumptions += ["floating-point fractional weights are read as the nearest rational with denominator <= 10^6 (checked to 1e-9); "
                            "the data file and restart.toml are parsed from their 20-digit decimal strings"]
     return sc.finish("every Complete event of every replayed behaviour / recorded run is checked for the four credit clauses, the row and "
